@@ -7,7 +7,8 @@
 //!    annotations (case `srcmap build`);
 //!  * `pc_to_error_location(pc+1)` for EVERY instruction index == `SrcMap.lookup` (case `srcmap locs`)
 //!    and == the annotation of instruction pc (spec).
-//! ASCII sources only in the main stream (D12: char offsets used as byte offsets).
+//! Sources contain non-ASCII comments and string literals before the failing line (D12, char offsets used
+//! as byte offsets, was repaired by /repo 5388a80; a regression shows up as a wrong line number).
 use abra_core::vm::Runtime;
 use vh::*;
 
@@ -57,7 +58,14 @@ impl<'a> Gen<'a> {
         for _ in 0..n {
             *uid += 1;
             let k = *uid;
-            match self.rng.below(6) {
+            match self.rng.below(8) {
+                6 => {
+                    // non-ASCII text before the failing line (D12 repaired: spans are byte offsets)
+                    self.files[f].push(format!("{indent}// f\u{fc}ller {k} \u{e9}\u{6f22}\u{5b57} \u{1F600}"));
+                }
+                7 => {
+                    self.files[f].push(format!("{indent}let n{k} = \"h\u{e9}llo \u{6f22}\u{5b57} {k}\""));
+                }
                 0 => {
                     self.files[f].push("");
                 }
